@@ -1,4 +1,5 @@
 import KoordVerif.Model.C12
+import KoordVerif.Model.C12Static
 import KoordVerif.Generated.C12
 /-
 Tie lemmas for C12: facts regenerated from /repo's current resourceexecutor sources equal what the
@@ -50,5 +51,30 @@ theorem tie_cached_value : C12.mergeWriteCachesWritten = true ∧ C12.mergeSkipC
 /-- applyCPUSetWithNonePolicy runs exactly two unconditional sweeps: the merged set in path order, then the
     new set in reversed path order (`nonePolicy` in the model). -/
 theorem tie_none_policy_sweeps : C12.nonePolicySweeps = [(true, false), (false, true)] := by decide
+
+/-- applyBESuppressCPUSet dispatches as `applyBESuppress` in the model: two returning guards (NodeTopo nil, policy
+    annotation unparsable) before the branch, the static arm taken iff Policy == "static", the none-policy
+    function in the other arm. -/
+theorem tie_suppress_dispatch :
+    C12.suppressGuards = ["nodeTopo==nil", "err!=nil"] ∧
+    C12.suppressCond = "Policy==KubeletCPUManagerPolicyStatic" ∧
+    C12.suppressElseCalls = ["applyCPUSetWithNonePolicy(beCPUSet,oldCPUSet)"] := by decide
+
+/-- the ORDER of the two calls of the static arm: recover besteffort + pod dirs FIRST, containers afterwards
+    (`staticPolicy` in the model; the swapped order is refuted by static_policy_swapped_order_counterexample). -/
+theorem tie_static_policy_order :
+    C12.suppressStaticCalls =
+      ["recoverCPUSetIfNeed(PodCgroupPathRelativeDepth)", "applyCPUSetWithStaticPolicy(beCPUSet)"] := by decide
+
+/-- each of the two steps is one unconditional forward sweep: recover over the dirs of depth ≤ maxDepth with the
+    calcBECPUSet string, static over the dirs of depth == container depth with the new set, skipped when empty. -/
+theorem tie_static_policy_sweeps :
+    C12.recoverSweeps = ["GetBECPUSetPathsByMaxDepth(maxDepth)|String()|false"] ∧
+    C12.staticSweeps =
+      ["GetBECPUSetPathsByTargetDepth(ContainerCgroupPathRelativeDepth)|GenerateCPUSetStr(cpus)|false"] ∧
+    C12.staticFirstGuard = "len(cpus)<=0" ∧
+    C12.maxDepthCmp = "<=" ∧ C12.targetDepthCmp = "==" := by decide
+
+theorem tie_depths : C12.podDepthConst = (podDepth : Int) ∧ C12.ctrDepthConst = (ctrDepth : Int) := by decide
 
 end KoordVerif.C12
